@@ -40,6 +40,15 @@ type InheritCfg struct {
 	BlockFn   bool `json:"block_fn,omitempty"`   // root prints block('a') a second time
 	Outside   bool `json:"outside,omitempty"`    // children have content outside blocks
 	NestOver  bool `json:"nest_over,omitempty"`  // overriding blocks contain a nested block (before parent() when it comes last)
+	// UseLevels: bit l set = level l (also) imports template "u" (several
+	// levels of one chain may import, giving long block chains).
+	UseLevels int `json:"use_levels,omitempty"`
+	// FilterFirst: every block body is wrapped in a filter section whose
+	// filter list differs per level; ExtendsLast puts the extends tag at the
+	// end, so that these sections start at the same source position in
+	// several templates of one execution.
+	FilterFirst bool `json:"filter_first,omitempty"`
+	ExtendsLast bool `json:"extends_last,omitempty"`
 }
 
 var blockNames = []string{"a", "b", "c", "d"}
@@ -66,8 +75,13 @@ func BuildInherit(c *InheritCfg) *m.Program {
 			default:
 				x = m.EStr(parent)
 			}
-			t.Body = append(t.Body, &m.N{K: "extends", X: x})
-			if c.UseAt == lvl {
+			ext := &m.N{K: "extends", X: x}
+			if !c.ExtendsLast {
+				t.Body = append(t.Body, ext)
+			} else {
+				defer func(t *m.Tpl) { t.Body = append(t.Body, ext) }(t)
+			}
+			if c.UseAt == lvl || c.UseLevels&(1<<uint(lvl)) != 0 {
 				u := &m.N{K: "use", X: m.EStr("u")}
 				if c.UseAlias >= 0 {
 					u.Pairs = [][2]string{{blockNames[c.UseAlias], "x" + blockNames[c.UseAlias]}}
@@ -99,6 +113,9 @@ func BuildInherit(c *InheritCfg) *m.Program {
 				if mode == BParentAfter {
 					b.Body = append(b.Body, par)
 				}
+				if c.FilterFirst {
+					b.Body = []*m.N{{K: "filter", Names: levelFilters[lvl%len(levelFilters)], Body: b.Body}}
+				}
 				t.Body = append(t.Body, b)
 				if c.Outside {
 					t.Body = append(t.Body, m.NText(" "))
@@ -109,6 +126,9 @@ func BuildInherit(c *InheritCfg) *m.Program {
 			for ni := 0; ni < c.Names; ni++ {
 				name := blockNames[ni]
 				b := &m.N{K: "block", S: name, Body: []*m.N{m.NText("R." + name + "("), whoCall(), m.NText(")")}}
+				if c.FilterFirst && !c.Nested {
+					b.Body = []*m.N{{K: "filter", Names: []string{"wrap", "up"}, Body: b.Body}}
+				}
 				if c.Nested && ni == 0 {
 					b.Body = append(b.Body, &m.N{K: "block", S: "inner", Body: []*m.N{m.NText("R.in("), whoCall(), m.NText(")")}})
 				}
@@ -126,7 +146,7 @@ func BuildInherit(c *InheritCfg) *m.Program {
 		}
 		p.Tpls = append(p.Tpls, t)
 	}
-	if c.UseAt >= 0 {
+	if c.UseAt >= 0 || c.UseLevels != 0 {
 		u := &m.Tpl{Name: "u"}
 		for ni := 0; ni < c.Names; ni++ {
 			if c.UseNames&(1<<uint(ni)) != 0 {
@@ -144,7 +164,7 @@ func BuildInherit(c *InheritCfg) *m.Program {
 
 // GenInherit draws a random configuration (possibly beyond the enumerated grid).
 func GenInherit(t *rapid.T) *InheritCfg {
-	c := &InheritCfg{L: rapid.IntRange(1, 4).Draw(t, "L"), Names: rapid.IntRange(1, 4).Draw(t, "names"), UseAt: -1, UseAlias: -1}
+	c := &InheritCfg{L: rapid.SampledFrom([]int{1, 2, 2, 3, 3, 4, 4, 5, 6}).Draw(t, "L"), Names: rapid.IntRange(1, 4).Draw(t, "names"), UseAt: -1, UseAlias: -1}
 	c.Entry = rapid.IntRange(0, c.L-1).Draw(t, "entry")
 	if rapid.IntRange(0, 2).Draw(t, "leaf") > 0 {
 		c.Entry = 0
@@ -173,6 +193,14 @@ func GenInherit(t *rapid.T) *InheritCfg {
 	c.BlockFn = rapid.Bool().Draw(t, "blockfn")
 	c.Outside = rapid.Bool().Draw(t, "outside")
 	c.NestOver = rapid.Bool().Draw(t, "nestover")
+	if c.L >= 3 && rapid.IntRange(0, 2).Draw(t, "multiuse") == 0 {
+		c.UseLevels = rapid.IntRange(1, (1<<uint(c.L-1))-1).Draw(t, "uselevels")
+		if c.UseNames == 0 {
+			c.UseNames = rapid.IntRange(1, (1<<uint(c.Names))-1).Draw(t, "useNames2")
+		}
+	}
+	c.FilterFirst = rapid.IntRange(0, 3).Draw(t, "filterfirst") == 0
+	c.ExtendsLast = rapid.Bool().Draw(t, "extlast")
 	return c
 }
 
@@ -209,6 +237,11 @@ func (g *G) incLit() *m.E {
 // targets and (for embed targets) blocks.
 func (g *G) incBody(idx int, withBlocks bool, depth int) []*m.N {
 	var out []*m.N
+	// templates often begin with a filter section (the same source position in
+	// several templates of one execution)
+	if g.intn("filterfirst", 0, 2) == 0 {
+		out = append(out, g.incFilterSection())
+	}
 	n := g.intn("ilen", 1, 5)
 	for i := 0; i < n; i++ {
 		switch g.intn("ik", 0, 7) {
@@ -242,6 +275,14 @@ func (g *G) incBody(idx int, withBlocks bool, depth int) []*m.N {
 		}
 	}
 	return out
+}
+
+func (g *G) incFilterSection() *m.N {
+	f := &m.N{K: "filter", Body: []*m.N{m.NText(pickS(g, "ftxt", []string{"ab", "cd ", "x"})), g.incObserve()}}
+	for i, k := 0, g.intn("nf", 1, 2); i < k; i++ {
+		f.Names = append(f.Names, pickS(g, "fname", []string{"up", "wrap", "fid"}))
+	}
+	return f
 }
 
 func (g *G) withHash() *m.E {
@@ -278,6 +319,10 @@ func (g *G) incStmt(idx int, depth int) *m.N {
 		for _, name := range []string{"a", "b", "c"} {
 			if g.intn("ov", 0, 2) == 0 {
 				body := []*m.N{m.NText("OV." + name + "("), g.incObserve()}
+				if depth < 1 && idx > 0 && g.intn("nestembed", 0, 3) == 0 {
+					// an include / embed nested inside the override block
+					body = append(body, g.incStmt(idx, depth+1))
+				}
 				if g.flip("ovparent") && g.targetBlocks[target][name] {
 					body = append(body, m.NPrint(&m.E{K: "parent"}))
 				}
@@ -319,6 +364,9 @@ func (g *G) IncludeProgram() *m.Program {
 		p.Tpls = append(p.Tpls, t)
 	}
 	host := &m.Tpl{Name: "host"}
+	if g.intn("hostfilterfirst", 0, 2) == 0 {
+		host.Body = append(host.Body, g.incFilterSection())
+	}
 	hv := m.Val{K: m.KHash}
 	hv.HashSet("x", m.Str("HVx"))
 	hv.HashSet("w", m.Num(7))
@@ -489,3 +537,5 @@ func (g *G) MacroProgram() *m.Program {
 	p.Tpls = append(p.Tpls, main)
 	return p
 }
+
+var levelFilters = [][]string{{"up"}, {"wrap"}, {"fid", "up"}, {"wrap", "wrap"}, {"up", "wrap"}, {"fid"}}
